@@ -143,3 +143,48 @@ Qed.
 
 Theorem lesser_irreflexive a p : lesser a a p = 0.
 Proof. unfold lesser. rewrite Z.ltb_irrefl. reflexivity. Qed.
+
+(* ---------- Boolean operators: a Boolean algebra on truth values ---------- *)
+Lemma normalize_b2z_ex x p : exists bx : bool, normalize x p = b2z bx.
+Proof. destruct (normalize_01 x p) as [H|H]; [exists false|exists true]; exact H. Qed.
+
+Theorem boolean_algebra_laws a b p : 2 < p ->
+  not (not a p) p = normalize a p /\
+  not (bool_and a b p) p = bool_or (not a p) (not b p) p /\
+  not (bool_or a b p) p = bool_and (not a p) (not b p) p /\
+  bool_and a b p = bool_and b a p /\
+  bool_or a b p = bool_or b a p /\
+  bool_and a a p = normalize a p /\
+  bool_or a a p = normalize a p /\
+  bool_and a (not a p) p = 0 /\
+  bool_or a (not a p) p = 1.
+Proof.
+  intros Hp.
+  destruct (normalize_b2z_ex a p) as [ba Ha]. destruct (normalize_b2z_ex b p) as [bb Hb].
+  assert (Na : not a p = b2z (negb ba)) by (unfold not; rewrite Ha; destruct ba; reflexivity).
+  assert (Nb : not b p = b2z (negb bb)) by (unfold not; rewrite Hb; destruct bb; reflexivity).
+  assert (An : bool_and a b p = b2z (ba && bb)) by (unfold bool_and; rewrite Ha, Hb; destruct ba, bb; reflexivity).
+  assert (Or : bool_or a b p = b2z (ba || bb)) by (unfold bool_or, bool_and; rewrite Ha, Hb; destruct ba, bb; reflexivity).
+  rewrite An, Or, Na, Nb.
+  unfold not, bool_or, bool_and. rewrite !normalize_bool by lia. rewrite Ha, Hb.
+  destruct ba, bb; cbn; repeat split; reflexivity.
+Qed.
+
+(* ---------- bitwise operators ---------- *)
+Theorem bitwise_laws a b p : 0 < p ->
+  bit_and a b p = bit_and b a p /\
+  bit_or a b p = bit_or b a p /\
+  bit_xor a b p = bit_xor b a p /\
+  bit_xor a a p = 0 /\
+  bit_and a a p = modulus a p /\
+  bit_or a a p = modulus a p /\
+  bit_or a 0 p = modulus a p /\
+  bit_xor a 0 p = modulus a p /\
+  bit_and a 0 p = 0.
+Proof.
+  intros Hp. unfold bit_and, bit_or, bit_xor.
+  rewrite (Z.land_comm a b), (Z.lor_comm a b), (Z.lxor_comm a b).
+  rewrite Z.lxor_nilpotent, Z.land_diag, Z.lor_diag, Z.lor_0_r, Z.lxor_0_r, Z.land_0_r.
+  assert (modulus 0 p = 0) by (rewrite modulus_spec by lia; apply Z.mod_0_l; lia).
+  repeat split; auto.
+Qed.
